@@ -19,6 +19,7 @@ import (
 	"context"
 	"encoding/json"
 	"fmt"
+	"hash/fnv"
 	"math/rand"
 	"os"
 	"sort"
@@ -577,6 +578,11 @@ func runC18(t *testing.T, c c18Case, st *drv.Stats) (fail *drv.Failure) {
 	}
 
 	// known reports whether f is a recorded finding the run may continue past
+	// trace: every observed outcome (request results, policy sets, operation errors)
+	// feeds the case hash, so the determinism self-test compares behaviour, not only
+	// the script
+	trace := fnv.New64a()
+	note := func(parts ...any) { fmt.Fprintln(trace, parts...) }
 	known := func(f *drv.Failure) bool {
 		if !strings.HasPrefix(f.Sig, "stale-graph:") {
 			return false
@@ -602,6 +608,7 @@ func runC18(t *testing.T, c c18Case, st *drv.Stats) (fail *drv.Failure) {
 			err = w.svc.NewEnforcer(v.tx).Enforce(ctx, req)
 		}
 		got := err == nil
+		note("req", v.name, subj, act, len(objs), c18ErrKind(err))
 		if len(objs) == 0 && !v.st.subj[subj] {
 			// the statement both permits the empty request (every object is covered,
 			// vacuously) and denies every request of an unknown subject: not judged
@@ -719,6 +726,7 @@ func runC18(t *testing.T, c c18Case, st *drv.Stats) (fail *drv.Failure) {
 		} else if tx != nil {
 			view = "outside-open-tx"
 		}
+		note("pols", v.name, subj, len(got), c18ErrKind(err))
 		if err != nil {
 			// the statement is about requests; an error here is judged through Enforce
 			st.Probe("retrieve_policies_error_" + c18ErrKind(err))
@@ -1116,6 +1124,7 @@ func runC18(t *testing.T, c c18Case, st *drv.Stats) (fail *drv.Failure) {
 		default:
 			return drv.Failf("harness", "unknown-op", "unknown op %q", op.K)
 		}
+		note("op", i, op.K, len(s.roles), len(s.pols), len(s.assign), len(s.attach), len(s.xAssign), len(s.xAttach))
 		if s2 := cur(); s2 == s {
 			for subj := range before {
 				if before[subj] != fmt.Sprint(s.policies(subj), c18Describe(s, subj)) {
@@ -1144,7 +1153,7 @@ func runC18(t *testing.T, c c18Case, st *drv.Stats) (fail *drv.Failure) {
 		}
 	}
 	b, _ := json.Marshal(c)
-	st.Case(drv.Hash64(string(b)), permits > 0 && denies > 0)
+	st.Case(drv.Hash64(string(b), strconv.FormatUint(trace.Sum64(), 16)), permits > 0 && denies > 0)
 	return nil
 }
 
